@@ -1,31 +1,56 @@
 #!/bin/bash
-# re-evaluates every stored seeded change whose delivery directory is still under /var/tmp/wave<N> (3 at a time)
-cd /verif
-run() { # wave prop n tag
-  local src=/var/tmp/wave$1 p=$2 n=$3 tag=$4 extra=""
-  [ -d $src/$p/$n ] || return
-  if [ ! -f $src/$p/$n/demo_test.go.txt ] || ! grep -q demo_dest $src/$p/$n/meta.json 2>/dev/null; then
-    extra=$(python3 - <<PY
-import json
-m=json.load(open('/verif/seeded/$p-$tag$n/meta.json'))
-r=m.get('evaluated',{}).get('ran','')
-print(' '.join(r.split()[3:]))
+# Re-evaluates every stored seeded change (seeded/<P>-<n>/, seeded/<P>-w<k>-<n>/) with the machinery as it is
+# now, 3 at a time, from the copies kept in /verif/seeded (patch, demonstration, meta.json), and regenerates
+# seeded/INDEX.md. Scratch space: /var/tmp/seedsrc-$$ (removed at the end). usage: seedregress.sh [id-prefix]
+cd "$(dirname "$0")/.."
+SRC=/var/tmp/seedsrc-$$
+rm -rf $SRC; mkdir -p $SRC
+python3 - "$SRC" "${1:-}" <<'PY'
+import json, os, re, shutil, sys
+src, prefix = sys.argv[1], sys.argv[2]
+jobs = []
+for d in sorted(os.listdir("seeded")):
+    m = re.match(r"^(C\d\d)-(w\d+-)?(\d+)$", d)
+    mp = os.path.join("seeded", d, "meta.json")
+    if not m or not os.path.exists(mp) or not d.startswith(prefix):
+        continue
+    p, tag, n = m.group(1), m.group(2) or "", m.group(3)
+    meta = json.load(open(mp))
+    ev = meta.get("evaluated") or {}
+    demos = [f for f in os.listdir(os.path.join("seeded", d)) if f.endswith(".go.txt") or f.endswith(".go")]
+    if not demos or not ev.get("demo_dest") or not ev.get("demo_cmd"):
+        continue   # (C08-2: a shell demonstration, evaluated by hand)
+    args = re.sub(r"^go test -vet=off -count=1 (-timeout \S+ )?", "", ev["demo_cmd"])
+    wave = tag or "w1-"
+    dst = os.path.join(src, wave, p, n)
+    os.makedirs(dst)
+    shutil.copy(os.path.join("seeded", d, "patch.diff"), dst)
+    shutil.copy(os.path.join("seeded", d, demos[0]), os.path.join(dst, "demo_test.go.txt"))
+    meta["demo_dest"], meta["demo_run"] = ev["demo_dest"], args
+    json.dump(meta, open(os.path.join(dst, "meta.json"), "w"))
+    jobs.append("%s %s %s %s" % (os.path.join(src, wave), tag, p, n))
+open(os.path.join(src, "jobs.txt"), "w").write("\n".join(jobs) + "\n")
+print(len(jobs), "changes")
 PY
-)
-  fi
-  SEED_SRC=$src SEED_TAG=$tag python3 bin/seedeval.py $p $n $extra > /var/tmp/rg_${p}-${tag}${n}.json 2>&1
-}
-jobs_n=0
-for w in 1 2 3 4 5 6 7 8; do
-  tag="w$w-"; [ $w = 1 ] && tag=""
-  for d in seeded/*; do
-    b=$(basename $d); p=${b%%-*}; rest=${b#*-}
-    case "$b" in D9-revert) continue;; esac
-    if [ $w = 1 ]; then case "$rest" in w*) continue;; esac; n=$rest; else case "$rest" in w$w-*) n=${rest#w$w-};; *) continue;; esac; fi
-    run $w $p $n "$tag" &
-    jobs_n=$((jobs_n+1))
-    if [ $jobs_n -ge 3 ]; then wait; jobs_n=0; fi
-  done
-done
+k=0
+while read -r dir tag p n; do
+  [ -z "$p" ] && continue
+  if [ -z "$n" ]; then n=$p; p=$tag; tag=""; fi   # wave 1 has an empty tag column
+  SEED_SRC=$dir SEED_TAG=$tag python3 bin/seedeval.py $p $n > $SRC/result_${p}-${tag}${n}.json 2>&1 &
+  k=$((k+1)); if [ $k -ge 3 ]; then wait; k=0; fi
+done < $SRC/jobs.txt
 wait
+python3 - "$SRC" <<'PY'
+import glob, json, sys
+for f in sorted(glob.glob(sys.argv[1] + "/result_*.json")):
+    try:
+        o = json.load(open(f))
+    except Exception:
+        print(f.split("result_")[1][:-5], "no result"); continue
+    ch = o.get("checks") or {}
+    odd = [k + ":" + str(v.get("exit")) for k, v in ch.items() if v.get("exit") not in (0, 1)]
+    if odd or o.get("accepted") is not True:
+        print(f.split("result_")[1][:-5], "accepted=", o.get("accepted"), "patch_applies=", o.get("patch_applies"), "demo_clean=", o.get("demo_clean"), odd)
+PY
 python3 bin/seedindex.py
+rm -rf $SRC
